@@ -273,6 +273,7 @@ func propC02(w *World, r *Report) {
 		r.Fail("panicreach", key, pos, ps.desc+" in "+name+" is reachable from the decoder entry points", w.PathTo(entries, ps.fn))
 	}
 	RunAllocBound(w, r, br, fns)
+	RunNarrowArith(w, r, fns)
 	RunLoopTerm(w, r, br, fns)
 	RunReencode(w, r)
 }
